@@ -195,7 +195,48 @@ func sameURLNoQF(a, b string) bool {
 	}
 	ua, e1 := url.Parse(a)
 	ub, e2 := url.Parse(b)
-	return e1 == nil && e2 == nil && ua.Scheme == ub.Scheme && ua.Host == ub.Host && ua.Path == ub.Path && ua.Opaque == ub.Opaque
+	if e1 != nil || e2 != nil || ua.Scheme != ub.Scheme || ua.Host != ub.Host || ua.Opaque != ub.Opaque || ua.User.String() != ub.User.String() {
+		return false
+	}
+	pa, pb := ua.Path, ub.Path
+	if (ua.Scheme == "http" || ua.Scheme == "https") && ua.Host != "" {
+		// an http(s) URI without a path and the same URI with the path "/" are the
+		// same request (RFC 3986 6.2.3, RFC 9110 4.2.3): not a change of the base
+		if pa == "" {
+			pa = "/"
+		}
+		if pb == "" {
+			pb = "/"
+		}
+	}
+	return pa == pb
+}
+
+func hasQuery(uri string) bool {
+	if i := strings.IndexByte(uri, '#'); i >= 0 {
+		uri = uri[:i]
+	}
+	return strings.Contains(uri, "?")
+}
+
+// dropOldFragmentPairs implements the Either of DESIGN 1.6 for a redirect URI that
+// already has a fragment and a response delivered in the fragment: the old fragment
+// may be replaced, and it may just as well be kept in front of the response
+// parameters. Whatever pairs the old fragment decodes to are therefore not counted
+// as response parameters (one occurrence each).
+func dropOldFragmentPairs(f url.Values, uri string) {
+	i := strings.IndexByte(uri, '#')
+	if i < 0 {
+		return
+	}
+	old, _ := url.ParseQuery(uri[i+1:])
+	for k, vs := range old {
+		for _, v := range vs {
+			if j := slices.Index(f[k], v); j >= 0 && len(f[k]) > 1 {
+				f[k] = slices.Delete(slices.Clone(f[k]), j, j+1)
+			}
+		}
+	}
 }
 
 func multisetEq(a, b []string) bool {
@@ -249,6 +290,9 @@ func judge(w *want, g *got) engine.Result {
 	rule := kind + "/" + ch
 	if hasFragment(w.uri) {
 		rule = kind + "/uri-has-fragment/" + ch
+		if hasQuery(w.uri) {
+			rule = kind + "/uri-has-query+fragment/" + ch
+		}
 	}
 	if !strict {
 		rule = strings.Replace(rule, "/"+ch, "/default-"+ch, 1)
@@ -320,6 +364,7 @@ func judge(w *want, g *got) engine.Result {
 		if used == "query" {
 			vals = q
 		} else {
+			dropOldFragmentPairs(f, w.uri)
 			vals = f
 		}
 	}
